@@ -345,3 +345,390 @@ Proof.
       * rewrite Hr'. reflexivity.
 Qed.
 
+
+
+Lemma cache_consulted h cfg c e rq r :
+  passes e = true -> handle h cfg c e rq = Ok r ->
+  exists b, is_allowed h c (e_addr e) (e_now e) (c_cutoff cfg) = Ok (o_cache r, b)
+            /\ b = negb (rate_refused r)
+            /\ (b = false -> o_out r = OIgnore /\ o_regs r = [(r_fbv rq, false, RateLimit, RIgnore)]).
+Proof.
+  intros Hp H. unfold passes in Hp. apply Bool.andb_true_iff in Hp. destruct Hp as [Hd Ha].
+  apply Bool.negb_true_iff in Hd.
+  destruct (handle_shape _ _ _ _ _ _ H) as (c1 & act & why & Hia & D).
+  destruct (intended_action_spec h cfg c e) as [(N & _)|[(_ & N & _)|(_ & _ & c' & b & Hal & _ & E)]]; try congruence.
+  rewrite E in Hia. inversion Hia; subst c1 act why. clear Hia.
+  exists b. unfold rate_refused.
+  destruct b.
+  - assert (G : forall a0 w0 ck, w0 <> RateLimit -> respond cfg c' e rq a0 w0 ck = Ok r ->
+              o_cache r = c' /\ existsb (fun g : registration => let '(_, _, w, _) := g in is_rate w) (o_regs r) = false).
+    { intros a0 w0 ck Hw R. destruct (respond_shape _ _ _ _ _ _ _ _ R) as (Hc & v1 & n1 & w1 & a1 & -> & S).
+      split; [exact Hc|]. cbn.
+      destruct S as [(_ & _ & [-> | ->])|(_ & _ & _ & _ & [(_ & _ & _ & -> & _)|[(_ & _ & [(_ & ->)|(_ & _ & ->)])|(_ & _ & _ & ->)]])];
+        try reflexivity; destruct w0; try reflexivity; congruence. }
+    destruct D as [(N & _)|[(_ & _ & Hc & _ & Hr)|[(_ & _ & _ & R)|[(_ & _ & _ & _ & R)|(N & _)]]]]; try discriminate.
+    + rewrite Hc, Hr. cbn. repeat split; cbn; auto; try discriminate.
+    + assert (Hw : Policy <> RateLimit) by discriminate.
+      destruct (G _ _ _ Hw R) as (Hc & Hf). rewrite Hc, Hf. repeat split; cbn; auto; try discriminate.
+    + assert (Hw : InvalidCrypto <> RateLimit) by discriminate.
+      destruct (G _ _ _ Hw R) as (Hc & Hf). rewrite Hc, Hf. repeat split; cbn; auto; try discriminate.
+  - destruct D as [(_ & Hc & Ho & Hr)|[(N & _)|[(N & _)|[(N & _)|(N & _)]]]]; try congruence.
+    rewrite Hc, Hr. cbn. repeat split; auto.
+Qed.
+
+Definition call_of (x : env * request) : Z * Z := (e_addr (fst x), e_now (fst x)).
+Definition passing (l : list (env * request)) : list (env * request) := filter (fun x => passes (fst x)) l.
+
+(* verdicts of the list-passing calls of a history, read off the results *)
+Fixpoint passing_verdicts (l : list (env * request)) (rs : list result) : list bool :=
+  match l, rs with
+  | x :: l', r :: rs' =>
+    if passes (fst x) then negb (rate_refused r) :: passing_verdicts l' rs' else passing_verdicts l' rs'
+  | _, _ => []
+  end.
+
+Lemma position_history h cfg l : forall c c' rs,
+  handle_all h cfg c l = Ok (c', rs) ->
+  length rs = length l /\
+  run_from h (c_cutoff cfg) c (map call_of (passing l)) = Ok (c', passing_verdicts l rs).
+Proof.
+  induction l as [|[e rq] l IH]; intros c c' rs H; cbn [handle_all res_bind] in H.
+  - inversion H; subst. split; reflexivity.
+  - destruct (handle h cfg c e rq) as [r| |] eqn:Hh; cbn [res_bind] in H; try discriminate.
+    destruct (handle_all h cfg (o_cache r) l) as [[c2 rs2]| |] eqn:Hr; cbn [res_bind fst snd] in H; try discriminate.
+    inversion H; subst c' rs. clear H.
+    destruct (IH _ _ _ Hr) as (Hlen & Hrun).
+    split; [cbn [length]; congruence|].
+    unfold passing in *. cbn [filter fst passing_verdicts].
+    destruct (passes e) eqn:Hp.
+    + destruct (cache_consulted _ _ _ _ _ _ Hp Hh) as (b & Hal & Hb & _).
+      cbn [map run_from call_of fst res_bind]. rewrite Hal. cbn [res_bind]. rewrite Hrun. cbn [res_bind].
+      rewrite Hb. reflexivity.
+    + destruct (cache_untouched _ _ _ _ _ _ Hp Hh) as (Hc & _). rewrite <- Hc. exact Hrun.
+Qed.
+
+Lemma handle_all_app h cfg l1 : forall l2 c c' rs,
+  handle_all h cfg c (l1 ++ l2) = Ok (c', rs) ->
+  exists c1 rs1 rs2, handle_all h cfg c l1 = Ok (c1, rs1) /\ handle_all h cfg c1 l2 = Ok (c', rs2)
+                     /\ rs = rs1 ++ rs2 /\ length rs1 = length l1.
+Proof.
+  induction l1 as [|[e rq] l1 IH]; intros l2 c c' rs H; cbn [app handle_all res_bind] in *.
+  - exists c, [], rs. auto.
+  - destruct (handle h cfg c e rq) as [r| |] eqn:Hh; cbn [res_bind] in *; try discriminate.
+    destruct (handle_all h cfg (o_cache r) (l1 ++ l2)) as [[c2 rs2]| |] eqn:Hr; cbn [res_bind fst snd] in H; try discriminate.
+    inversion H; subst c' rs. clear H.
+    destruct (IH _ _ _ _ Hr) as (c1 & rs1 & rs2' & H1 & H2 & -> & Hl).
+    rewrite H1. cbn [res_bind fst snd]. exists c1, (r :: rs1), rs2'. repeat split; auto. cbn [length]. congruence.
+Qed.
+
+(* the server-level reading of C20: in any history of datagrams through one server, a datagram that
+   passed the lists is rate-limited iff the most recent earlier list-passing datagram on its slot came
+   from the same address less than the cutoff before *)
+Lemma server_refused_iff h cfg n pre e rq post c' rs r :
+  handle_all h cfg (new_cache n) (pre ++ (e, rq) :: post) = Ok (c', rs) ->
+  passes e = true ->
+  nth_error rs (length pre) = Some r ->
+  (rate_refused r = true <->
+   0 < n /\ exists t', last_on_slot h n (slot_of h n (e_addr e)) (map call_of (passing pre)) = Some (e_addr e, t')
+                       /\ dur_since (e_now e) t' < c_cutoff cfg).
+Proof.
+  intros H Hp Hn.
+  destruct (handle_all_app _ _ _ _ _ _ _ H) as (c1 & rs1 & rs2 & H1 & H2 & -> & Hl).
+  cbn [handle_all res_bind] in H2.
+  destruct (handle h cfg c1 e rq) as [r0| |] eqn:Hh; cbn [res_bind] in H2; try discriminate.
+  destruct (handle_all h cfg (o_cache r0) post) as [[c2 rs3]| |]; cbn [res_bind fst snd] in H2; try discriminate.
+  inversion H2; subst c' rs2. clear H2.
+  rewrite nth_error_app2 in Hn by lia. rewrite Hl, Nat.sub_diag in Hn. cbn in Hn. inversion Hn; subst r0. clear Hn.
+  destruct (position_history _ _ _ _ _ _ H1) as (_ & Hrun).
+  destruct (cache_consulted _ _ _ _ _ _ Hp Hh) as (b & Hal & Hb & _).
+  destruct (Z_lt_le_dec 0 n) as [Hpos|Hneg].
+  - destruct (run_inv h n (c_cutoff cfg) (map call_of (passing pre)) Hpos) as (cc & bs & Hrun' & Hinv & _).
+    rewrite Hrun in Hrun'. inversion Hrun'; subst cc. 
+    destruct (is_allowed_inv h n (c_cutoff cfg) c1 _ (e_addr e) (e_now e) Hpos Hinv) as (c'' & Hal' & _).
+    rewrite Hal in Hal'. inversion Hal' as [[Hc Hbv]].
+    rewrite <- verdict_spec_false_iff, <- Hbv, Hb.
+    destruct (rate_refused r); cbn; split; intros; try tauto; try discriminate; destruct H0; auto; discriminate.
+  - rewrite (new_cache_nonpos n Hneg), run_empty in Hrun. inversion Hrun; subst c1.
+    cbn in Hal. inversion Hal; subst b. 
+    destruct (rate_refused r); [discriminate|]. split; [discriminate|]. intros (? & _). lia.
+Qed.
+
+
+
+(* ---- C21 ------------------------------------------------------------------------ *)
+
+Lemma respond_nts cfg c e rq action why cookie r v n w a :
+  respond cfg c e rq action why cookie = Ok r -> o_regs r = [(v, n, w, a)] ->
+  (o_out r <> OIgnore -> n = (cookie || response_eqb action RNak)) /\
+  (n = true -> (cookie || response_eqb action RNak) = true /\ (o_out r = OIgnore -> w = InternalError)).
+Proof.
+  unfold respond. intros R Hr.
+  destruct cookie, action; cbn in R; unfold ignore_with in R;
+    repeat match type of R with
+    | context [match ?x with _ => _ end] => destruct x eqn:?; cbn in R; try discriminate R
+    end; inv_ok; cbn in Hr; inversion Hr; subst; cbn; repeat split; intros; try congruence; auto.
+Qed.
+
+Lemma nts_flag h cfg c e rq r v n w a :
+  handle h cfg c e rq = Ok r -> o_regs r = [(v, n, w, a)] ->
+  (r_parse rq = PErr -> n = false) /\
+  (r_parse rq = POk -> r_cookie rq = false -> n = false) /\
+  (r_parse rq = POk -> r_cookie rq = true -> o_out r <> OIgnore -> n = true) /\
+  (r_parse rq = PDecrypt ->
+     (o_out r = ORespond ANak -> n = true) /\
+     (o_out r = ORespond ADenyKiss -> n = false) /\
+     (n = true -> o_out r = ORespond ANak \/ (o_out r = OIgnore /\ w = InternalError))).
+Proof.
+  intros H Hr. destruct (handle_shape _ _ _ _ _ _ H) as (c1 & act & why & Hia & D).
+  pose proof (intended_never_nak _ _ _ _ _ _ _ Hia) as Hnn.
+  destruct D as [(_ & _ & Ho & Hr')|[(_ & _ & _ & Ho & Hr')|[(_ & P & C & R)|[(_ & Nd & P & C & R)|(Ad & P & C & R)]]]].
+  - rewrite Hr in Hr'. inversion Hr'; subst. rewrite Ho. repeat split; intros; try reflexivity; try congruence.
+  - rewrite Hr in Hr'. inversion Hr'; subst. rewrite Ho. repeat split; intros; try reflexivity; try congruence.
+  - destruct (respond_nts _ _ _ _ _ _ _ _ _ _ _ _ R Hr) as (N1 & N2).
+    assert (Q : response_eqb act RNak = false) by (destruct act; try reflexivity; congruence).
+    rewrite Q, Bool.orb_false_r in *.
+    split; [congruence|]. split; [|split; [|congruence]].
+    + intros _ Ck. destruct n; [|reflexivity]. destruct (N2 eq_refl) as (N & _). congruence.
+    + intros _ Ck Ho. rewrite (N1 Ho). exact Ck.
+  - destruct (respond_nts _ _ _ _ _ _ _ _ _ _ _ _ R Hr) as (N1 & N2). cbn in N1, N2.
+    destruct (respond_shape _ _ _ _ _ _ _ _ R) as (_ & v1 & n1 & w1 & a1 & Hr1 & S).
+    rewrite Hr in Hr1. inversion Hr1; subst v1 n1 w1 a1. clear Hr1.
+    split; [congruence|]. split; [congruence|]. split; [congruence|]. intros _.
+    split; [|split].
+    + intros Ho. apply N1. rewrite Ho. discriminate.
+    + intros Ho. destruct S as [(Ho' & _)|(_ & _ & _ & _ & [(_ & Ho' & _)|[(_ & _ & [(N & _)|(N & _)])|(_ & Ho' & _)]])]; congruence.
+    + intros Hn. destruct S as [(Ho' & _)|(_ & _ & _ & _ & [(_ & _ & N & _)|[(_ & _ & [(N & _)|(N & _)])|(_ & Ho' & _)]])]; try congruence.
+      * right. split; [exact Ho'|]. apply (proj2 (N2 Hn)). exact Ho'.
+      * left. exact Ho'.
+  - destruct (respond_nts _ _ _ _ _ _ _ _ _ _ _ _ R Hr) as (N1 & N2). cbn in N1, N2.
+    destruct (respond_shape _ _ _ _ _ _ _ _ R) as (_ & v1 & n1 & w1 & a1 & Hr1 & S).
+    rewrite Hr in Hr1. inversion Hr1; subst v1 n1 w1 a1. clear Hr1.
+    split; [congruence|]. split; [congruence|]. split; [congruence|]. intros _.
+    split; [|split].
+    + intros Ho. destruct S as [(Ho' & _)|(_ & _ & _ & _ & [(_ & Ho' & _)|[(_ & Ho' & _)|(_ & _ & N & _)]])]; congruence.
+    + intros Ho. apply N1. rewrite Ho. discriminate.
+    + intros Hn. destruct (N2 Hn) as (N & _). discriminate.
+Qed.
+
+
+(* ---- C21: the daemon's counters --------------------------------------------------- *)
+
+Definition reg_nts (g : registration) : bool := let '(_, n, _, _) := g in n.
+Definition reg_reason (g : registration) : reason := let '(_, _, w, _) := g in w.
+Definition reg_resp (g : registration) : response := let '(_, _, _, a) := g in a.
+
+Definition p_all (g : registration) := true.
+Definition p_accepted g := response_eqb (reg_resp g) RProvideTime.
+Definition p_denied g := response_eqb (reg_resp g) RDeny.
+Definition p_ignored g := response_eqb (reg_resp g) RIgnore && negb (is_rate (reg_reason g)).
+Definition p_rate g := response_eqb (reg_resp g) RIgnore && is_rate (reg_reason g).
+Definition p_nak g := response_eqb (reg_resp g) RNak.
+Definition p_nts g := reg_nts g.
+Definition p_nts_accepted g := reg_nts g && p_accepted g.
+Definition p_nts_denied g := reg_nts g && p_denied g.
+Definition p_nts_rate g := reg_nts g && p_rate g.
+
+Definition count (p : registration -> bool) (l : list registration) : nat := length (filter p l).
+
+Lemma iter_inc_swap k x : Nat.iter k inc (inc x) = inc (Nat.iter k inc x).
+Proof. induction k as [|k IH]; [reflexivity|]. change (inc (Nat.iter k inc (inc x)) = inc (inc (Nat.iter k inc x))). rewrite IH. reflexivity. Qed.
+
+Lemma fold_field (f : stats -> Z) (p : registration -> bool) :
+  (forall s g, f (register s g) = if p g then inc (f s) else f s) ->
+  forall l s, f (register_all s l) = Nat.iter (count p l) inc (f s).
+Proof.
+  intros Hstep. unfold register_all, count. induction l as [|g l IH]; intros s; cbn [fold_left filter]; [reflexivity|].
+  rewrite IH, Hstep. destruct (p g); cbn [length]; [|reflexivity].
+  rewrite iter_inc_swap. reflexivity.
+Qed.
+
+Lemma iter_inc k x : 0 <= x < 2 ^ 64 -> Nat.iter k inc x = wrap 64 (x + Z.of_nat k).
+Proof.
+  intros Hx. unfold wrap. induction k as [|k IH].
+  - cbn [Nat.iter]. rewrite Z.add_0_r, Z.mod_small; [reflexivity|exact Hx].
+  - change (Nat.iter (S k) inc x) with (inc (Nat.iter k inc x)). rewrite IH. unfold inc, wrap. rewrite Zplus_mod_idemp_l. f_equal. lia.
+Qed.
+
+Ltac step_tac := intros s [[[v n] w] a]; destruct n, w, a; reflexivity.
+
+Lemma counters l :
+  let s := register_all stats0 l in
+  received s = wrap 64 (Z.of_nat (count p_all l)) /\
+  accepted s = wrap 64 (Z.of_nat (count p_accepted l)) /\
+  denied s = wrap 64 (Z.of_nat (count p_denied l)) /\
+  ignored s = wrap 64 (Z.of_nat (count p_ignored l)) /\
+  rate_limited s = wrap 64 (Z.of_nat (count p_rate l)) /\
+  nts_nak s = wrap 64 (Z.of_nat (count p_nak l)) /\
+  nts_received s = wrap 64 (Z.of_nat (count p_nts l)) /\
+  nts_accepted s = wrap 64 (Z.of_nat (count p_nts_accepted l)) /\
+  nts_denied s = wrap 64 (Z.of_nat (count p_nts_denied l)) /\
+  nts_rate_limited s = wrap 64 (Z.of_nat (count p_nts_rate l)) /\
+  send_errors s = 0.
+Proof.
+  cbv zeta.
+  assert (R : 0 <= 0 < 2 ^ 64) by (split; [lia|reflexivity]).
+  repeat split.
+  - rewrite (fold_field received p_all) by step_tac. apply (iter_inc _ 0 R).
+  - rewrite (fold_field accepted p_accepted) by step_tac. apply (iter_inc _ 0 R).
+  - rewrite (fold_field denied p_denied) by step_tac. apply (iter_inc _ 0 R).
+  - rewrite (fold_field ignored p_ignored) by step_tac. apply (iter_inc _ 0 R).
+  - rewrite (fold_field rate_limited p_rate) by step_tac. apply (iter_inc _ 0 R).
+  - rewrite (fold_field nts_nak p_nak) by step_tac. apply (iter_inc _ 0 R).
+  - rewrite (fold_field nts_received p_nts) by step_tac. apply (iter_inc _ 0 R).
+  - rewrite (fold_field nts_accepted p_nts_accepted) by step_tac. apply (iter_inc _ 0 R).
+  - rewrite (fold_field nts_denied p_nts_denied) by step_tac. apply (iter_inc _ 0 R).
+  - rewrite (fold_field nts_rate_limited p_nts_rate) by step_tac. apply (iter_inc _ 0 R).
+  - rewrite (fold_field send_errors (fun _ => false)) by step_tac.
+    unfold count. induction l; cbn; auto.
+Qed.
+
+(* every registration lands in exactly one of the five outcome counters, and the NTS
+   counters count sub-populations of the corresponding outcome counters *)
+Lemma counters_partition l :
+  (count p_all l = length l)%nat /\
+  (count p_accepted l + count p_denied l + count p_ignored l + count p_rate l + count p_nak l = length l)%nat /\
+  (count p_nts_accepted l <= count p_accepted l)%nat /\
+  (count p_nts_denied l <= count p_denied l)%nat /\
+  (count p_nts_rate l <= count p_rate l)%nat /\
+  (count p_nts_accepted l + count p_nts_denied l + count p_nts_rate l <= count p_nts l)%nat.
+Proof.
+  unfold count. induction l as [|[[[v n] w] a] l IH]; [cbn; lia|].
+  destruct IH as (I1 & I2 & I3 & I4 & I5 & I6).
+  destruct n, w, a; cbn [filter p_all p_accepted p_denied p_ignored p_rate p_nak p_nts p_nts_accepted p_nts_denied p_nts_rate
+                         reg_nts reg_reason reg_resp response_eqb is_rate andb negb length]; lia.
+Qed.
+
+(* the registrations of a history, one per datagram, in order *)
+Lemma handle_all_each h cfg l : forall c c' rs,
+  handle_all h cfg c l = Ok (c', rs) ->
+  length rs = length l /\ Forall (fun r => exists c0 e rq, handle h cfg c0 e rq = Ok r) rs.
+Proof.
+  induction l as [|[e rq] l IH]; intros c c' rs H; cbn [handle_all res_bind] in H.
+  - inversion H; subst. split; [reflexivity|constructor].
+  - destruct (handle h cfg c e rq) as [r| |] eqn:Hh; cbn [res_bind] in H; try discriminate.
+    destruct (handle_all h cfg (o_cache r) l) as [[c2 rs2]| |] eqn:Hr; cbn [res_bind fst snd] in H; try discriminate.
+    inversion H; subst c' rs. destruct (IH _ _ _ Hr) as (Hl & Hf).
+    split; [cbn [length]; congruence|]. constructor; [eauto|exact Hf].
+Qed.
+
+Definition out_is (o : output) (r : result) : bool :=
+  match o, o_out r with
+  | OIgnore, OIgnore => true
+  | ORespond ATime, ORespond ATime => true
+  | ORespond ADenyKiss, ORespond ADenyKiss => true
+  | ORespond ANak, ORespond ANak => true
+  | _, _ => false
+  end.
+
+Lemma history_counts h cfg l c c' rs :
+  handle_all h cfg c l = Ok (c', rs) ->
+  let regs := flat_map o_regs rs in
+  length regs = length l /\
+  count p_accepted regs = length (filter (out_is (ORespond ATime)) rs) /\
+  count p_denied regs = length (filter (out_is (ORespond ADenyKiss)) rs) /\
+  count p_nak regs = length (filter (out_is (ORespond ANak)) rs) /\
+  (count p_ignored regs + count p_rate regs)%nat = length (filter (out_is OIgnore) rs).
+Proof.
+  intros H. destruct (handle_all_each _ _ _ _ _ _ H) as (Hl & Hf). cbv zeta. rewrite <- Hl. clear H Hl.
+  unfold count. induction Hf as [|r rs (c0 & e & rq & Hh) Hf IH]; [cbn; auto|].
+  destruct IH as (I1 & I2 & I3 & I4 & I5).
+  destruct (handle_one_registration _ _ _ _ _ _ Hh) as (v & n & w & a & Hr & K1 & K2 & K3 & K4).
+  assert (X : forall o b, (match o, o_out r with
+                           | OIgnore, OIgnore => true
+                           | ORespond ATime, ORespond ATime => true
+                           | ORespond ADenyKiss, ORespond ADenyKiss => true
+                           | ORespond ANak, ORespond ANak => true
+                           | _, _ => false end) = b -> out_is o r = b) by (intros; assumption).
+  cbn [flat_map]. rewrite Hr. cbn [app filter length].
+  destruct a.
+  - pose proof (proj1 K3 eq_refl) as Eo.
+    rewrite (X (ORespond ATime) false), (X (ORespond ADenyKiss) false), (X (ORespond ANak) true), (X OIgnore false)
+      by (rewrite Eo; reflexivity).
+    destruct w; cbn; lia.
+  - pose proof (proj1 K2 eq_refl) as Eo.
+    rewrite (X (ORespond ATime) false), (X (ORespond ADenyKiss) true), (X (ORespond ANak) false), (X OIgnore false)
+      by (rewrite Eo; reflexivity).
+    destruct w; cbn; lia.
+  - pose proof (proj1 K4 eq_refl) as Eo.
+    rewrite (X (ORespond ATime) false), (X (ORespond ADenyKiss) false), (X (ORespond ANak) false), (X OIgnore true)
+      by (rewrite Eo; reflexivity).
+    destruct w; cbn; lia.
+  - pose proof (proj1 K1 eq_refl) as Eo.
+    rewrite (X (ORespond ATime) true), (X (ORespond ADenyKiss) false), (X (ORespond ANak) false), (X OIgnore false)
+      by (rewrite Eo; reflexivity).
+    destruct w; cbn; lia.
+Qed.
+
+(* ---- C22 --------------------------------------------------------------------------- *)
+
+Lemma intended_action_range h cfg c e c' a w :
+  intended_action h cfg c e = Ok (c', a, w) -> a = RIgnore \/ a = RDeny \/ a = RProvideTime.
+Proof.
+  intros H. destruct a; auto. exfalso. exact (intended_never_nak _ _ _ _ _ _ _ H eq_refl).
+Qed.
+
+Lemma respond_total cfg c e rq action why cookie :
+  env_ok e -> action <> RIgnore ->
+  (r_ver rq = V3 -> cookie = false /\ action <> RNak) ->
+  exists r, respond cfg c e rq action why cookie = Ok r.
+Proof.
+  intros (Hl & Hk & Hy & Hrd) Hni Hv3. unfold respond. rewrite Hl, Hk, Hy, Hrd. cbn [negb]. rewrite Bool.andb_false_r.
+  destruct (existsb (version_eqb (r_ver rq)) (c_accepted cfg)); cbn [negb]; [|eexists; reflexivity].
+  destruct (r_ver rq) eqn:Ev.
+  - destruct (Hv3 eq_refl) as (-> & Hnn).
+    destruct action, (c_require_nts cfg) as [[|]|], (e_ser_ok e); cbn; try congruence; eexists; reflexivity.
+  - destruct cookie, action, (c_require_nts cfg) as [[|]|], (e_ser_ok e); cbn; try congruence; eexists; reflexivity.
+  - destruct cookie, action, (c_require_nts cfg) as [[|]|], (e_ser_ok e); cbn; try congruence; eexists; reflexivity.
+Qed.
+
+Lemma handle_total h cfg c e rq :
+  env_ok e -> req_ok rq -> exists r, handle h cfg c e rq = Ok r.
+Proof.
+  intros He Hq. unfold handle.
+  destruct (intended_action_total h cfg c e) as (c' & a & w & E). rewrite E. cbn [res_bind].
+  destruct (intended_action_range _ _ _ _ _ _ _ E) as [-> | [-> | ->]]; cbn [response_eqb negb].
+  - eexists; reflexivity.
+  - destruct (r_parse rq) eqn:Ep; [destruct (r_client rq)| destruct (r_client rq)|]; cbn [negb]; try (eexists; reflexivity).
+    + apply respond_total; [exact He|discriminate|]. intros Ev. destruct (Hq Ev) as (_ & Hc). split; [auto|discriminate].
+    + apply respond_total; [exact He|discriminate|]. intros Ev. split; [reflexivity|discriminate].
+  - destruct (r_parse rq) eqn:Ep; [destruct (r_client rq)| destruct (r_client rq)|]; cbn [negb]; try (eexists; reflexivity).
+    + apply respond_total; [exact He|discriminate|]. intros Ev. destruct (Hq Ev) as (_ & Hc). split; [auto|discriminate].
+    + apply respond_total; [exact He|discriminate|]. intros Ev. destruct (Hq Ev) as (Hc & _). congruence.
+Qed.
+
+(* which panic, and why: the only reachable sites are the four environment sites and the
+   NTPv3 one; the cache index and the `unreachable!()` of the Ignore arm are never reached *)
+Lemma handle_panic_sites h cfg c e rq s :
+  handle h cfg c e rq = Panic s ->
+  (s = panic_lock_poisoned /\ e_lock_ok e = false) \/
+  (s = panic_clock /\ e_clock_ok e = false) \/
+  (s = panic_keys /\ e_keys_ok e = false) \/
+  (s = panic_root_delay /\ e_root_delay_nonneg e = false) \/
+  (s = panic_nts_v3 /\ r_ver rq = V3 /\ (r_parse rq = PDecrypt \/ (r_parse rq = POk /\ r_cookie rq = true))).
+Proof.
+  unfold handle. intros H.
+  destruct (intended_action_total h cfg c e) as (c' & a & w & E). rewrite E in H. cbn [res_bind] in H.
+  destruct (r_cookie rq) eqn:Eck; destruct (c_require_nts cfg) as [[|]|] eqn:Erq;
+  destruct (intended_action_range _ _ _ _ _ _ _ E) as [-> | [-> | ->]]; cbn [response_eqb negb] in H;
+    unfold respond, ignore_with in H; rewrite ?Eck, ?Erq in H;
+    repeat match type of H with
+    | context [match ?x with _ => _ end] => destruct x eqn:?; cbn in H; try discriminate H
+    end; inversion H; subst;
+    repeat match goal with
+    | Q : _ && _ = true |- _ => apply Bool.andb_true_iff in Q; destruct Q
+    | Q : negb _ = true |- _ => apply Bool.negb_true_iff in Q
+    | Q : negb _ = false |- _ => apply Bool.negb_false_iff in Q
+    end; auto 12.
+Qed.
+
+Lemma handle_all_total h cfg l : forall c,
+  Forall (fun x => env_ok (fst x) /\ req_ok (snd x)) l ->
+  exists c' rs, handle_all h cfg c l = Ok (c', rs) /\ length rs = length l.
+Proof.
+  induction l as [|[e rq] l IH]; intros c Hf; cbn [handle_all].
+  - exists c, []. auto.
+  - inversion Hf as [|x l' (He & Hq) Hf']; subst. cbn [fst snd] in *.
+    destruct (handle_total h cfg c e rq He Hq) as (r & Hr). rewrite Hr. cbn [res_bind].
+    destruct (IH (o_cache r) Hf') as (c' & rs & Hrs & Hl). rewrite Hrs. cbn [res_bind fst snd].
+    exists c', (r :: rs). split; [reflexivity|]. cbn [length]. congruence.
+Qed.
